@@ -181,9 +181,19 @@ def gen_result(rng, depth=2):
     """A value from the supported result domain, without partitions."""
     r = rng.random()
     if depth <= 0 or r < 0.45:
-        k = rng.randrange(4)
+        k = rng.randrange(5)
         if k == 0:
             return bytes(rng.randrange(256) for _ in range(rng.choice([0, 1, 5, 40])))
+        if k == 4 and rng.random() < 0.5:
+            # a pandas timestamp: a subclass of datetime (a timestamp, not a date), naive or with a zone
+            import pandas as pd
+
+            import datetime as _dt
+
+            d = gen_datetime(rng)
+            if d.tzinfo is not None and not isinstance(d.tzinfo, _dt.timezone):
+                d = d.replace(tzinfo=None)  # (pandas takes fixed-offset zones of the standard library only)
+            return pd.Timestamp(d.replace(year=min(max(d.year, 1700), 2200)))
         return gen_scalar(rng)
     if r < 0.58:
         return gen_array(rng)
